@@ -7,6 +7,10 @@ mod c01;
 mod c02;
 mod c08;
 mod c17;
+mod c16;
+mod c13;
+mod c07;
+mod c15;
 mod common;
 mod dict;
 mod world;
@@ -40,6 +44,10 @@ fn main() {
         "C02" => c02::run(&mut run),
         "C08" => c08::run(&mut run),
         "C17" => c17::run(&mut run),
+        "C16" => c16::run(&mut run),
+        "C13" => c13::run(&mut run),
+        "C07" => c07::run(&mut run),
+        "C15" => c15::run(&mut run),
         _ => { eprintln!("unknown property {}", prop); std::process::exit(2); }
     }
     run.finish();
